@@ -139,11 +139,16 @@ def setup(ctx):
     core.attach(ppm, "SDD", sdd_post)
 
 
-FORMS = ["str", "list", "tuple", "ndarray", "bs"]
+FORMS = ["str", "list", "tuple", "ndarray", "bs", "str_groups", "str_comma"]
 
 
 def render(bits, form):
     b = [int(v) for v in bits]
+    if form == "str_groups":       # '01 10 11': separators between groups of bits
+        s_ = "".join(map(str, b))
+        return " ".join(s_[j:j + 2] for j in range(0, len(s_), 2))
+    if form == "str_comma":
+        return ",".join(map(str, b))
     return {"str": lambda: "".join(map(str, b)), "list": lambda: b, "tuple": lambda: tuple(b), "ndarray": lambda: np.array(b), "bs": lambda: T.binary_sequence(b)}[form]()
 
 
@@ -175,7 +180,7 @@ def w_roundtrip_exhaustive(ctx, rng, i):
                 ctx.evaluations += 1
             # decoder accepts the same container forms
             if L >= k:
-                for form in ("str", "list", "ndarray"):
+                for form in ("str", "list", "ndarray", "str_groups"):
                     with core.quiet():
                         d2 = Pm.PPM_DECODER(render(ref, form), M)
                     if not np.array_equal(d2.data, b[: L // k * k]):
@@ -245,7 +250,7 @@ def w_random_long(ctx, rng, i):
     k = int(np.log2(M))
     n = int(rng.choice([k, 2 * k + 1, 100, 1000, 10000]))
     b = rng.integers(0, 2, n).astype(np.uint8)
-    form = FORMS[int(rng.integers(5))]
+    form = FORMS[int(rng.integers(len(FORMS)))]
     ctx.describe(M=M, n=n, form=form)
     np.random.seed(int(rng.integers(2 ** 31)))
     with core.quiet():
@@ -330,6 +335,22 @@ def w_dsp(ctx, rng, i):
     ctx.case(("dsp", sps, M, i))
 
 
+def w_sdd_two_grids(ctx, rng, i):
+    """the same sample array decoded under sps = a, then b, then a: the slot integration must use the sps in force."""
+    a, b = (int(v) for v in rng.choice([2, 4, 8, 16], 2, replace=False))
+    M = int(rng.choice([2, 4, 8]))
+    n = M * a * b * int(rng.integers(1, 5))
+    y = rng.normal(0, 1, n)
+    ctx.describe(sps_sequence=[a, b, a], M=M, n=n)
+    outs = []
+    for sps in (a, b, a):
+        with core.quiet():
+            T.gv(sps=sps, R=1e9)
+            outs.append(Pm.SDD(y if rng.integers(2) else T.electrical_signal(y), M).data)      # sdd.post decides with the sps in force
+    ctx.check("sdd.identity", np.array_equal(outs[0], outs[2]), f"SDD result under sps={a} differs after a visit to sps={b}")
+    ctx.case(("sddgrids", a, b, M))
+
+
 WORKLOADS = [
     Workload("roundtrip_exhaustive", w_roundtrip_exhaustive, len(RT_INDEX), len(RT_INDEX), exhaustive=True, budget=600),
     Workload("hdd_exhaustive", w_hdd_exhaustive, lambda: 4 * len(hdd_scope("quick")), lambda: 4 * len(hdd_scope("thorough")), exhaustive=True, budget=900),
@@ -338,6 +359,7 @@ WORKLOADS = [
     Workload("sdd", w_sdd, 400, 40000),
     Workload("dsp", w_dsp, 12, 400),
     Workload("repo_tests", lambda ctx, rng, i: core.run_repo_tests(ctx), 1, 1, budget=1800, tiers=("thorough",)),
+    Workload("sdd_two_grids", w_sdd_two_grids, 60, 3000),
 ]
 
 
